@@ -19,6 +19,7 @@ import (
 	"net/http/httptest"
 	"net/url"
 	"path/filepath"
+	"reflect"
 	"regexp"
 	"strings"
 	"testing"
@@ -460,8 +461,8 @@ func coqChans(l []c17Chan) string {
 	return "[" + strings.Join(parts, "; ") + "]"
 }
 
-func c17Env(t *testing.T, providerURL string, force bool, more func(c *AppConfigFile, dir string)) *verifEnv {
-	return verifSetup(t, func(c *AppConfigFile, dir string) {
+func c17Env0(providerURL string, force bool, more func(c *AppConfigFile, dir string)) func(c *AppConfigFile, dir string) {
+	return func(c *AppConfigFile, dir string) {
 		c.Oauth2.Enabled = true
 		c.Oauth2.ForceRedirect = force
 		c.Oauth2.ClientID = "keymaster"
@@ -479,11 +480,15 @@ func c17Env(t *testing.T, providerURL string, force bool, more func(c *AppConfig
 		if more != nil {
 			more(c, dir)
 		}
-	})
+	}
+}
+
+func c17Env(t *testing.T, providerURL string, force bool, more func(c *AppConfigFile, dir string)) *verifEnv {
+	return verifSetup(t, c17Env0(providerURL, force, more))
 }
 
 func TestVerif_C17(t *testing.T) {
-	res := newVerifResult("login_destination strings: exhaustive over {/ \\\\ . a TAB ? # % : @}^<=L (L=4 quick, 5 thorough) through getLoginDestination+http.Redirect, a structured adversarial list, every raw/percent-encoded pair of dangerous bytes after the leading slash, and seeded random strings through POST /api/v0/login (text/html); the federated-login flow; the success path of every redirecting second-factor handler (bootstrap OTP, TOTP, VIP, Okta) with hostile values in the form field, the query string, Referer, Origin and forwarding headers; the family /<seg>{#,?,%23}/..{/..}*/<dangerous pair><host> (1-3 leading segments) at function level and through every redirecting handler; the channel family: no form/query value and hostile values in every cookie name the package reads or sets (harvested from the source), cookies and headers named like the parameter, a JSON body, a multipart field, a path suffix, through loginHandler, every second-factor success path and the federated flow; non-trivial = the filter accepted the string (redirect target differs from the profile page); distinct by (input, Location)")
+	res := newVerifResult("login_destination strings: exhaustive over {/ \\\\ . a TAB ? # % : @}^<=L (L=4 quick, 5 thorough) through getLoginDestination+http.Redirect, a structured adversarial list, every raw/percent-encoded pair of dangerous bytes after the leading slash, and seeded random strings through POST /api/v0/login (text/html); the federated-login flow; the success path of every redirecting second-factor handler (bootstrap OTP, TOTP, VIP, Okta) with hostile values in the form field, the query string, Referer, Origin and forwarding headers; the family /<seg>{#,?,%23}/..{/..}*/<dangerous pair><host> (1-3 leading segments) at function level and through every redirecting handler; the channel family: no form/query value and hostile values in every cookie name the package reads or sets (harvested from the source), cookies and headers named like the parameter, a JSON body, a multipart field, a path suffix, through loginHandler, every second-factor success path and the federated flow; every run of / and \\ of length 2..5 in front of a host at function level and through every redirecting handler; one daemon per empty-by-default string knob of the base configuration (reflection, real loader) set to a URL, driven with the scheme-in-first-segment family through every redirecting handler; non-trivial = the filter accepted the string (redirect target differs from the profile page); distinct by (input, Location)")
 	// a fake OAuth2 provider for the federated-login flow
 	provider := httptest.NewServer(http.HandlerFunc(func(w http.ResponseWriter, r *http.Request) {
 		w.Header().Set("Content-Type", "application/json")
@@ -497,7 +502,7 @@ func TestVerif_C17(t *testing.T) {
 		}
 	}))
 	defer provider.Close()
-	env := c17Env(t, provider.URL, false, func(c *AppConfigFile, dir string) {
+	fullEdit := func(c *AppConfigFile, dir string) {
 		// every second-factor handler that redirects to the supplied destination must be reachable
 		c.Base.EnableLocalTOTP = true
 		k, _ := ecdsa.GenerateKey(elliptic.P256(), rand.Reader)
@@ -509,26 +514,34 @@ func TestVerif_C17(t *testing.T) {
 		c.SymantecVIP.Enabled = true
 		c.SymantecVIP.CertFile = filepath.Join(dir, "vip-cert.pem")
 		c.SymantecVIP.KeyFile = filepath.Join(dir, "vip-key.pem")
-	})
+	}
+	env := c17Env(t, provider.URL, false, fullEdit)
 	vipSrv := httptest.NewUnstartedServer(http.HandlerFunc(c17VipHandler))
 	vipSrv.Config.SetKeepAlivesEnabled(false)
 	vipSrv.StartTLS()
 	defer vipSrv.Close()
-	if vc := env.state.Config.SymantecVIP.Client; vc != nil {
+	oktaSrv := httptest.NewServer(http.HandlerFunc(c17OktaHandler))
+	defer oktaSrv.Close()
+	// points a daemon's VIP client at the fake service and registers the Okta second-factor routes (main() does
+	// that when an Okta domain is configured; the authenticator itself is swapped in only around the Okta probes,
+	// the login probes use the htpasswd backend)
+	wireSecondFactors := func(e *verifEnv) error {
+		vc := e.state.Config.SymantecVIP.Client
+		if vc == nil {
+			return fmt.Errorf("VIP client not configured")
+		}
 		vc.VipUserServicesURL = vipSrv.URL + "/query"
 		vc.VipUserServiceAuthenticationURL = vipSrv.URL + "/auth"
 		vc.RootCAs = x509.NewCertPool()
 		vc.RootCAs.AddCert(vipSrv.Certificate())
-	} else {
-		t.Fatal("VIP client not configured")
+		e.state.Config.Okta.Domain = "verif"
+		e.state.Config.Okta.Enable2FA = true
+		e.handler = e.buildHandler()
+		return nil
 	}
-	oktaSrv := httptest.NewServer(http.HandlerFunc(c17OktaHandler))
-	defer oktaSrv.Close()
-	// main() registers the Okta second-factor routes when an Okta domain is configured; the authenticator
-	// itself is swapped in only around the Okta probes (the login probes use the htpasswd backend)
-	env.state.Config.Okta.Domain = "verif"
-	env.state.Config.Okta.Enable2FA = true
-	env.handler = env.buildHandler()
+	if err := wireSecondFactors(env); err != nil {
+		t.Fatal(err)
+	}
 	oktaAuth, err := okta.NewPublicTesting(oktaSrv.URL+"/api/v1/authn", testlogger.New(t))
 	if err != nil {
 		t.Fatal(err)
@@ -568,6 +581,12 @@ func TestVerif_C17(t *testing.T) {
 		if redirected && !verifSameOrigin(loc) {
 			res.hit(verifHit{Key: "C17:offorigin:" + via, Oracle: "Location resolves off the keymaster origin (WHATWG) or carries control bytes",
 				What: fmt.Sprintf("login_destination %q yields Location %q via %s", in, loc, via),
+				Case: map[string]interface{}{"login_destination": []byte(in), "via": via}, Observed: loc})
+		}
+		// the same question asked of the observed header alone, resolved as a browser resolves it against the page
+		if ok, why := c17LocationAllowed(loc, ""); redirected && !ok {
+			res.hit(verifHit{Key: "C17:location-offorigin:" + c17HandlerClass(via), Oracle: "the observed Location header, resolved as a browser would (WHATWG: tab/CR/LF dropped, any run of two or more '/' '\\' introduces the authority), does not name the page's own origin",
+				What: fmt.Sprintf("login_destination %q yields Location %q via %s: %s", in, loc, via, why),
 				Case: map[string]interface{}{"login_destination": []byte(in), "via": via}, Observed: loc})
 		}
 	}
@@ -669,14 +688,14 @@ func TestVerif_C17(t *testing.T) {
 	tick("2:loginHandler")
 	// (3) federated login: begin -> (optionally begin again, with the setup cookie of the first
 	// attempt) -> provider callback; the destination is parked server side in between
-	oauthBegin := func(dest string, setup *http.Cookie) (cookie *http.Cookie, st string, ok bool) {
+	oauthBeginOn := func(e *verifEnv, dest string, setup *http.Cookie) (cookie *http.Cookie, st string, ok bool) {
 		form := url.Values{}
 		form.Set("login_destination", dest)
 		req := verifNewRequest("GET", oauth2LoginBeginPath, form)
 		if setup != nil {
 			req.AddCookie(setup)
 		}
-		rr, _ := env.serve(req)
+		rr, _ := e.serve(req)
 		if rr.Code != 302 {
 			return nil, "", false
 		}
@@ -692,18 +711,22 @@ func TestVerif_C17(t *testing.T) {
 		}
 		return cookie, u.Query().Get("state"), cookie != nil
 	}
-	oauthCallback := func(cookie *http.Cookie, st string) (string, bool) {
+	oauthCallbackOn := func(e *verifEnv, cookie *http.Cookie, st string) (string, bool) {
 		q := url.Values{}
 		q.Set("state", st)
 		q.Set("code", "abc")
 		req := verifNewRequest("GET", redirectPath, q)
 		req.AddCookie(&http.Cookie{Name: cookie.Name, Value: cookie.Value})
-		rr, _ := env.serve(req)
+		rr, _ := e.serve(req)
 		if rr.Code != 302 {
 			return "", false
 		}
 		return rr.Header().Get("Location"), true
 	}
+	oauthBegin := func(dest string, setup *http.Cookie) (*http.Cookie, string, bool) {
+		return oauthBeginOn(env, dest, setup)
+	}
+	oauthCallback := func(cookie *http.Cookie, st string) (string, bool) { return oauthCallbackOn(env, cookie, st) }
 	oauthDests := c17Structured()
 	var ownHostFew []string // own-host URLs for the multi-step flows
 	for _, sch := range []string{"https://", "//"} {
@@ -747,41 +770,9 @@ func TestVerif_C17(t *testing.T) {
 	// filtered login_destination form field; every other request-controlled channel (query string,
 	// Referer, Origin, forwarding headers) must be ignored — for the model they are not inputs, so
 	// the expected Location of those probes is the profile page
-	adminCookie := env.cookie("admin", AuthTypePassword|AuthTypeU2F)
-	if err := env.state.SaveUserProfile("alice", &userProfile{}); err != nil { // the admin endpoint wants an existing profile without devices
-		t.Fatal(err)
-	}
 	totpKey, err := totp.Generate(totp.GenerateOpts{Issuer: "verif", AccountName: "bob"})
 	if err != nil {
 		t.Fatal(err)
-	}
-	saveBob := func() { // an existing profile with one enabled TOTP device that has accepted nothing yet
-		p, _, _, err := env.state.LoadUserProfile("verif-nobody")
-		if err != nil {
-			t.Fatal(err)
-		}
-		enc, err := env.state.encryptWithPublicKeys([]byte(totpKey.Secret()))
-		if err != nil {
-			t.Fatal(err)
-		}
-		p.TOTPAuthData[1] = &totpAuthData{CreatedAt: time.Now(), EncryptedSecret: enc, Enabled: true}
-		if err := env.state.SaveUserProfile("bob", p); err != nil {
-			t.Fatal(err)
-		}
-	}
-	saveBob()
-	issueOtp := func() string {
-		f := url.Values{}
-		f.Set("username", "alice")
-		f.Set("duration", "10m")
-		req := verifNewRequest("POST", generateBoostrapOTPPath, f)
-		req.AddCookie(adminCookie)
-		rr, _ := env.serve(req)
-		var d newBootstrapOTPPPageTemplateData
-		if rr.Code != 200 || json.Unmarshal(rr.Body.Bytes(), &d) != nil || d.BootstrapOTPValue == "" {
-			return ""
-		}
-		return d.BootstrapOTPValue
 	}
 	// one prover per second-factor handler that redirects to the supplied destination: it returns the
 	// endpoint and a value that handler will accept for alice right now
@@ -791,29 +782,64 @@ func TestVerif_C17(t *testing.T) {
 		prep func() (path, otp string)
 		done func()
 	}
-	htpasswdChecker := env.state.passwordChecker
-	provers := []prover{
-		{"bootstrapOtp", "alice", func() (string, string) { return bootstrapOtpAuthPath, issueOtp() }, func() {}},
-		{"totp", "bob", func() (string, string) {
-			saveBob() // forget the last accepted time step: every probe presents a fresh code
-			env.state.totpLocalTateLimitMutex.Lock()
-			env.state.totpLocalRateLimit = map[string]totpRateLimitInfo{} // the per-user spacing is C14's subject
-			env.state.totpLocalTateLimitMutex.Unlock()
-			code, err := totp.GenerateCode(totpKey.Secret(), time.Now())
+	mkProvers := func(e *verifEnv) []prover {
+		adminCookie := e.cookie("admin", AuthTypePassword|AuthTypeU2F)
+		if err := e.state.SaveUserProfile("alice", &userProfile{}); err != nil { // the admin endpoint wants an existing profile without devices
+			panic(err)
+		}
+		saveBob := func() { // an existing profile with one enabled TOTP device that has accepted nothing yet
+			p, _, _, err := e.state.LoadUserProfile("verif-nobody")
 			if err != nil {
-				return totpAuthPath, ""
+				panic(err)
 			}
-			return totpAuthPath, code
-		}, func() {}},
-		{"vip", "alice", func() (string, string) { return vipAuthPath, "123456" }, func() {}},
-		{"okta", "alice", func() (string, string) {
-			env.state.passwordChecker = oktaAuth
-			if ok, err := oktaAuth.PasswordAuthenticate("alice", []byte("pw")); err != nil || !ok {
-				return okta2FAauthPath, ""
+			enc, err := e.state.encryptWithPublicKeys([]byte(totpKey.Secret()))
+			if err != nil {
+				panic(err)
 			}
-			return okta2FAauthPath, "123456"
-		}, func() { env.state.passwordChecker = htpasswdChecker }},
+			p.TOTPAuthData[1] = &totpAuthData{CreatedAt: time.Now(), EncryptedSecret: enc, Enabled: true}
+			if err := e.state.SaveUserProfile("bob", p); err != nil {
+				panic(err)
+			}
+		}
+		saveBob()
+		issueOtp := func() string {
+			f := url.Values{}
+			f.Set("username", "alice")
+			f.Set("duration", "10m")
+			req := verifNewRequest("POST", generateBoostrapOTPPath, f)
+			req.AddCookie(adminCookie)
+			rr, _ := e.serve(req)
+			var d newBootstrapOTPPPageTemplateData
+			if rr.Code != 200 || json.Unmarshal(rr.Body.Bytes(), &d) != nil || d.BootstrapOTPValue == "" {
+				return ""
+			}
+			return d.BootstrapOTPValue
+		}
+		htpasswdChecker := e.state.passwordChecker
+		return []prover{
+			{"bootstrapOtp", "alice", func() (string, string) { return bootstrapOtpAuthPath, issueOtp() }, func() {}},
+			{"totp", "bob", func() (string, string) {
+				saveBob() // forget the last accepted time step: every probe presents a fresh code
+				e.state.totpLocalTateLimitMutex.Lock()
+				e.state.totpLocalRateLimit = map[string]totpRateLimitInfo{} // the per-user spacing is C14's subject
+				e.state.totpLocalTateLimitMutex.Unlock()
+				code, err := totp.GenerateCode(totpKey.Secret(), time.Now())
+				if err != nil {
+					return totpAuthPath, ""
+				}
+				return totpAuthPath, code
+			}, func() {}},
+			{"vip", "alice", func() (string, string) { return vipAuthPath, "123456" }, func() {}},
+			{"okta", "alice", func() (string, string) {
+				e.state.passwordChecker = oktaAuth
+				if ok, err := oktaAuth.PasswordAuthenticate("alice", []byte("pw")); err != nil || !ok {
+					return okta2FAauthPath, ""
+				}
+				return okta2FAauthPath, "123456"
+			}, func() { e.state.passwordChecker = htpasswdChecker }},
+		}
 	}
+	provers := mkProvers(env)
 	secondFactor := func(pr prover, hostile, channel string) {
 		target, otp := pr.prep()
 		defer pr.done()
@@ -1361,10 +1387,191 @@ func TestVerif_C17(t *testing.T) {
 		}
 	}
 	tick("8:channels")
+	// (9) the leading slash-run family: every run of '/' and '\' of length 2..5 in front of a host (url.Parse reads an
+	// authority only behind exactly "//", a browser behind any such run), without and with path, at function level
+	// and through EVERY redirecting handler: loginHandler, the federated begin -> callback, bootstrap OTP, TOTP, VIP, Okta
+	slashRuns := c17SlashRunFamily(verifThorough())
+	for _, d := range slashRuns {
+		form := url.Values{}
+		form.Set("login_destination", d)
+		req := verifNewRequest("POST", "/api/v0/login", form)
+		req.ParseForm()
+		rr := httptest.NewRecorder()
+		http.Redirect(rr, req, getLoginDestination(req), 302)
+		record(d, rr.Header().Get("Location"), "getLoginDestination:slash-runs", true)
+	}
+	loginOn := func(e *verifEnv, d string) (string, bool) {
+		form := url.Values{}
+		form.Set("username", "alice")
+		form.Set("password", "alicepw")
+		form.Set("login_destination", d)
+		req := verifNewRequest("POST", "/api/v0/login", form)
+		req.Header.Set("Accept", "text/html")
+		rr, _ := e.serve(req)
+		return rr.Header().Get("Location"), rr.Code == 302
+	}
+	federatedOn := func(e *verifEnv, d string) (string, bool) {
+		if c, st, ok := oauthBeginOn(e, d, nil); ok {
+			return oauthCallbackOn(e, c, st)
+		}
+		return "", false
+	}
+	for i, d := range slashRuns {
+		if loc, ok := loginOn(env, d); ok {
+			record(d, loc, "loginHandler", true)
+		} else {
+			res.hit(verifHit{Key: "C17:harness:login-status", Oracle: "harness", What: "login did not redirect", Case: d})
+		}
+		if loc, ok := federatedOn(env, d); ok {
+			record(d, loc, "oauth2:begin,callback", true)
+			res.bump("slash-runs:federated")
+		} else {
+			res.hit(verifHit{Key: "C17:harness:oauth2-begin", Oracle: "harness", What: "federated login could not be completed", Case: d})
+		}
+		// quick tier: every second-factor handler sees every second member (alternating halves), thorough: all
+		for j, pr := range provers {
+			if verifThorough() || (i+j)%2 == 0 {
+				secondFactor(pr, d, "form")
+			}
+		}
+	}
+	tick("9:slash-runs")
+	// (10) configuration by reflection: every string knob of the base configuration that is empty in the test
+	// configuration (found at run time with reflect, written to the YAML file under the field's own tag, loaded by
+	// the real loader) is set to a plausible URL, one daemon per knob, and the redirect flows are run again with the
+	// scheme-in-first-segment family and a few slash runs.  With such a knob the statement reads: the Location
+	// resolves to the page's own origin OR to the configured URL's origin under its path.  The model ignores the
+	// knob (there is no such setting in the tree the model follows): Location = location(form value).
+	const knobURL = "https://sso.example.org/km"
+	type knobObs struct {
+		ext, in, loc string
+		pf           bool
+		via, knob    string
+	}
+	var knobCases []knobObs
+	knobDests := c17SchemeSegFamily(verifThorough())
+	for i, d := range slashRuns {
+		if i%16 == 3 || (verifThorough() && i%4 == 3) {
+			knobDests = append(knobDests, d)
+		}
+	}
+	knobRecord := func(k c17Knob, in, loc, handler string) {
+		_, perr := url.Parse(in)
+		knobCases = append(knobCases, knobObs{ext: knobURL, in: in, loc: loc, pf: perr != nil, via: handler, knob: k.yaml})
+		res.eval("knob\x00"+k.yaml+"\x00"+handler+"\x00"+in+"\x00"+loc, loc != profilePath)
+		res.bump("via:url-knob:" + handler)
+		if ok, why := c17LocationAllowed(loc, knobURL); !ok {
+			res.hit(verifHit{Key: "C17:location-offorigin:url-knob:" + handler, Oracle: "with a string knob of the base configuration set to a URL, the observed Location resolves (as a browser would) neither to the page's own origin nor under the configured URL",
+				What: fmt.Sprintf("base configuration knob %q = %q: login_destination %q yields Location %q via %s: %s", k.yaml, knobURL, in, loc, handler, why),
+				Case: map[string]interface{}{"knob_yaml": k.yaml, "knob_field": k.name, "knob_value": knobURL, "login_destination": []byte(in), "via": handler}, Observed: loc})
+		}
+	}
+	knobs := c17StringKnobs()
+	var knobNames, knobsRun, knobsRefused []string
+	maxKnobServers := 12
+	if verifThorough() {
+		maxKnobServers = 64
+	}
+	for _, k := range knobs {
+		knobNames = append(knobNames, k.yaml)
+		if len(knobsRun) >= maxKnobServers {
+			res.bump("url-knob:over-budget")
+			continue
+		}
+		k := k
+		wasEmpty := false
+		tKnob := time.Now()
+		e, err := c17TrySetup(t, func(c *AppConfigFile, dir string) {
+			c17Env0(provider.URL, false, fullEdit)(c, dir)
+			fv := reflect.ValueOf(c).Elem().FieldByIndex(k.index)
+			if fv.String() == "" {
+				wasEmpty = true
+				fv.SetString(knobURL)
+			}
+		})
+		if !wasEmpty {
+			res.bump("url-knob:not-empty-by-default")
+			continue
+		}
+		if err != nil {
+			// a configuration the daemon does not start with redirects nobody
+			knobsRefused = append(knobsRefused, k.yaml)
+			res.bump("url-knob:refused-by-loader")
+			continue
+		}
+		if reflect.ValueOf(e.state.Config).FieldByIndex(k.index).String() != knobURL {
+			res.bump("url-knob:value-not-kept")
+		}
+		var kprovers []prover
+		func() {
+			defer func() {
+				if p := recover(); p != nil {
+					kprovers = nil
+				}
+			}()
+			if wireSecondFactors(e) == nil {
+				kprovers = mkProvers(e)
+			}
+		}()
+		knobsRun = append(knobsRun, k.yaml)
+		reached := map[string]int{}
+		for i, d := range knobDests {
+			if loc, ok := loginOn(e, d); ok {
+				knobRecord(k, d, loc, "loginHandler")
+				reached["loginHandler"]++
+			}
+			if loc, ok := federatedOn(e, d); ok {
+				knobRecord(k, d, loc, "oauth2")
+				reached["oauth2"]++
+			}
+			for j, pr := range kprovers {
+				if !verifThorough() && i >= 12 && (i+j)%4 != 0 {
+					continue
+				}
+				target, otp := pr.prep()
+				if otp == "" {
+					pr.done()
+					continue
+				}
+				f := url.Values{}
+				f.Set("OTP", otp)
+				f.Set("login_destination", d)
+				req := verifNewRequest("POST", target, f)
+				req.Header.Set("Accept", "text/html")
+				req.AddCookie(e.cookie(pr.user, AuthTypePassword))
+				rr, _ := e.serve(req)
+				pr.done()
+				if rr.Code == 302 {
+					knobRecord(k, d, rr.Header().Get("Location"), pr.name)
+					reached[pr.name]++
+				}
+			}
+		}
+		for _, h := range []string{"loginHandler", "oauth2", "bootstrapOtp", "totp", "vip", "okta"} {
+			if reached[h] == 0 {
+				res.bump("url-knob:handler-not-reached:" + h) // e.g. a knob that replaces the password backend: nobody is redirected
+			} else {
+				res.bump("url-knob:handler-reached:" + h)
+			}
+		}
+		res.Extra["seconds:knob:"+k.yaml] = fmt.Sprintf("%.2f", time.Since(tKnob).Seconds())
+	}
+	res.Extra["base_string_knobs"] = knobNames
+	res.Extra["url_knob_servers"] = knobsRun
+	res.Extra["url_knobs_refused_by_loader"] = knobsRefused
+	if len(knobs) == 0 {
+		res.hit(verifHit{Key: "C17:harness:no-string-knobs", Oracle: "harness", What: "reflection found no string field in the base configuration", Case: "AppConfigFile.Base"})
+	}
+	for _, h := range []string{"loginHandler", "oauth2", "totp", "vip"} {
+		if len(knobsRun) > 0 && res.counts["url-knob:handler-reached:"+h] == 0 {
+			res.hit(verifHit{Key: "C17:harness:no-url-knob-flow:" + h, Oracle: "harness", What: "no daemon with a URL-valued knob ever redirected through this handler", Case: h})
+		}
+	}
+	tick("10:url-knobs")
 	// Coq case file
 	var sb strings.Builder
 	sb.WriteString(coqCaseHeader)
-	sb.WriteString("From KM Require Import Base.Cases Model.Dest Model.DestReq.\nOpen Scope N_scope.\n")
+	sb.WriteString("From KM Require Import Base.Cases Model.Dest Model.DestReq Model.DestExt.\nOpen Scope N_scope.\n")
 	// every list is scanned once: number of cases that differ from the model, the first 40 such indices (binary
 	// numbers: a long list of unary indices takes minutes to read back) and the first 40 of them on which the
 	// OBSERVED Location violates the property's own predicate (same_origin, evaluated here in Coq)
@@ -1441,6 +1648,20 @@ func TestVerif_C17(t *testing.T) {
 		sb.WriteString(fmt.Sprintf(" (%s, %s, %s, %s, %s)%s\n", coqBool(c.pf), coqBool(c.fed), form, coqChans(c.chans), coqPacked([]byte(c.loc)), sep))
 	}
 	sb.WriteString("].\n" + scanOut("c17_chan", "c17_chan_cls", "chan_cases"))
+	sb.WriteString("Definition ext_cases : list (option bs * bool * bs * bs) := [\n")
+	for j, c := range knobCases {
+		sep := ";"
+		if j == len(knobCases)-1 {
+			sep = ""
+		}
+		sb.WriteString(fmt.Sprintf(" (Some %s, %s, %s, %s)%s\n", coqPacked([]byte(c.ext)), coqBool(c.pf), coqPacked([]byte(c.in)), coqPacked([]byte(c.loc)), sep))
+	}
+	sb.WriteString("].\n" + scanOut("c17_ext", "c17_ext_cls", "ext_cases"))
+	var kidx strings.Builder
+	for i, c := range knobCases {
+		kidx.WriteString(fmt.Sprintf("%d\tbase-knob=%s\tknob-value=%q\tvia=%s\tlogin_destination=%q\tlocation=%q\n", i, c.knob, c.ext, c.via, c.in, c.loc))
+	}
+	ioutil.WriteFile(filepath.Join(verifOut(), "CasesC17ext.idx"), []byte(kidx.String()), 0644)
 	if err := ioutil.WriteFile(filepath.Join(verifOut(), "CasesC17.v"), []byte(sb.String()), 0644); err != nil {
 		t.Fatal(err)
 	}
